@@ -26,28 +26,34 @@ NumberOK(w) ==
   IN b > a /\ fracOK /\ expOK /\ e = Len(w) + 1
 WordOK(w) == IdentOK(w) \/ NumberOK(w) \/ w = <<45, 105, 110, 102>>        \* "-inf"
 
-VARIABLES l, first       \* first[vid] = text of the first rendering seen
-tvars == <<l, first>>
-TInit == l = 1 /\ first = <<>>
+VARIABLES l, first,      \* first[vid] = text of the first rendering seen (probe values that are rendered again much later)
+          prev         \* the latest rendering of a value whose renderings are adjacent in the trace (keep = FALSE): <<vid, text>>
+tvars == <<l, first, prev>>
+TInit == l = 1 /\ first = <<>> /\ prev = <<"", <<>>>>
 Lookup(f, k) == IF \E i \in 1..Len(f) : f[i][1] = k THEN (CHOOSE x \in {f[i] : i \in 1..Len(f)} : x[1] = k)[2] ELSE <<0 - 1>>
 Bad(what) == PrintT(<<"TEXTBAD", ToJson([line |-> l, what |-> what])>>)
 Step == /\ l <= Len(Tr) /\ l' = l + 1
         /\ LET e == Tr[l] IN
            CASE e.k = "lit" ->
-                  /\ first' = first
+                  /\ first' = first /\ prev' = prev
                   /\ LET u == Unquote(e.lit) IN
                      (u.ok \/ Bad("literal is not well formed")) /\ (~u.ok \/ u.val = e.s \/ Bad("literal does not denote the value"))
              [] e.k = "field" ->
-                  /\ first' = first
+                  /\ first' = first /\ prev' = prev
                   /\ IF e.kind = "string" THEN LET u == Unquote(e.tok) IN (u.ok /\ u.val = e.acc) \/ Bad("string field differs from the accessor")
                      ELSE IF e.kind = "float" THEN      \* tokp = the value the token denotes by the grammar of the format, acc = the accessor's, both as bit patterns
                           /\ (WordOK(e.tok) \/ Bad("field value is not a well-formed word of the text format"))
                           /\ (e.tokp = e.acc \/ Bad("float field does not denote the accessor's value"))
                      ELSE /\ (WordOK(e.tok) \/ Bad("field value is not a well-formed word of the text format"))
                           /\ (e.tok = e.acc \/ Bad("field value differs from the accessor"))
-             [] e.k = "render" ->
-                  IF Lookup(first, e.vid) = <<0 - 1>> THEN first' = Append(first, <<e.vid, e.text>>)
-                  ELSE first' = first /\ (Lookup(first, e.vid) = e.text \/ Bad("text depends on the encoder's history"))
+             [] e.k = "render" /\ e.keep ->
+                  /\ prev' = prev
+                  /\ IF Lookup(first, e.vid) = <<0 - 1>> THEN first' = Append(first, <<e.vid, e.text>>)
+                     ELSE first' = first /\ (Lookup(first, e.vid) = e.text \/ Bad("text depends on the encoder's history"))
+             [] e.k = "render" /\ ~e.keep ->
+                  /\ first' = first
+                  /\ IF prev[1] = e.vid THEN prev' = prev /\ (prev[2] = e.text \/ Bad("text depends on the encoder's history"))
+                     ELSE prev' = <<e.vid, e.text>>
 TSpec == TInit /\ [][Step]_tvars
 Consumed == l = Len(Tr) + 1 => PrintT(<<"CONSUMED", ToJson([n |-> Len(Tr)])>>)
 =============================================================================
